@@ -49,6 +49,9 @@ func (f *Frame) wrapResults(common *ssa.CallCommon, res []*Val) *Val {
 func (f *Frame) doCall(st *State, site ssa.CallInstruction, common *ssa.CallCommon, args []*Val, fnv *Val) *Val {
 	c := f.c
 	if b, ok := common.Value.(*ssa.Builtin); ok {
+		if f.contract != nil && f.caller == nil && len(f.contract.CallAssert) > 0 {
+			f.callAsserts(st, site, common, args, nil)
+		}
 		return f.builtin(st, site, b, common, args)
 	}
 	if f.contract != nil && f.caller == nil && len(f.contract.CallAssert) > 0 {
@@ -111,6 +114,7 @@ func (f *Frame) doCall(st *State, site ssa.CallInstruction, common *ssa.CallComm
 		}
 		if why := c.W.externFrames[ek]; isExt {
 			c.W.noteAssumed("extern " + name + " leaves the verified heap unchanged, result unconstrained: " + why)
+			f.recordLastArgs(st, common.Method.Name(), args)
 			c.allocFrame(st)
 			if rt := resultType(common); rt != nil {
 				return c.freshVal("ext."+common.Method.Name(), rt)
@@ -121,6 +125,16 @@ func (f *Frame) doCall(st *State, site ssa.CallInstruction, common *ssa.CallComm
 	}
 	if fnv != nil && fnv.K == KFunc && fnv.Fn != nil {
 		return f.callStatic(st, site, common, fnv.Fn, args, fnv.Binds)
+	}
+	if top := f.topFrame(); top.contract != nil && len(top.contract.Extra["funcvalues"]) > 0 {
+		// "funcvalues frame-only :: reason": calls through function values inside this function are assumed to
+		// leave the verified heap unchanged (result unconstrained); listed as an assumption
+		c.W.noteAssumed(top.contract.FullName() + ": calls through function values leave the verified heap unchanged: " + strings.Join(top.contract.Extra["funcvalues"], "; "))
+		c.allocFrame(st)
+		if rt := resultType(common); rt != nil {
+			return c.freshVal("ext.funcvalue", rt)
+		}
+		return nil
 	}
 	return f.unknownCall(st, common, "function value")
 }
@@ -209,6 +223,9 @@ func (f *Frame) assumeFreshIn(st *State, v *Val, lo int) {
 func (f *Frame) scopePkg() string {
 	top := f.topFrame()
 	if top.fn != nil && top.fn.Pkg != nil {
+		if top.contract != nil {
+			return shortPkg(top.fn.Pkg.Pkg.Path()) + "#" + top.contract.FullName()
+		}
 		return shortPkg(top.fn.Pkg.Pkg.Path())
 	}
 	return ""
@@ -216,6 +233,9 @@ func (f *Frame) scopePkg() string {
 
 // calleeLabel: a printable name of the called function or method.
 func calleeLabel(common *ssa.CallCommon) string {
+	if b, ok := common.Value.(*ssa.Builtin); ok {
+		return "builtin." + b.Name()
+	}
 	if common.IsInvoke() {
 		return ifaceMethodName(common)
 	}
@@ -238,7 +258,7 @@ func (f *Frame) callAsserts(st *State, site ssa.CallInstruction, common *ssa.Cal
 		for _, b := range f.fn.Blocks {
 			for _, in := range b.Instrs {
 				if ci, ok := in.(ssa.CallInstruction); ok {
-					if _, isB := ci.Common().Value.(*ssa.Builtin); !isB && strings.Contains(calleeLabel(ci.Common()), ca.Callee) {
+					if strings.Contains(calleeLabel(ci.Common()), ca.Callee) {
 						sites = append(sites, ci)
 					}
 				}
@@ -295,6 +315,21 @@ func (f *Frame) callStatic(st *State, site ssa.CallInstruction, common *ssa.Call
 		return m(f, st, site, args)
 	}
 	ek, isExt := c.W.externKey(f.scopePkg(), key)
+	if isExt && c.W.externHavoc[ek+"#args"] {
+		c.W.noteAssumed("extern " + key + " writes only the variables its pointer arguments point to (those are havocked), result unconstrained: " + c.W.externFrames[ek])
+		for _, a := range args {
+			f.havocPointee(st, a)
+		}
+		c.allocFrame(st)
+		if rt := resultType(common); rt != nil {
+			return c.freshVal("ext."+callee.Name(), rt)
+		}
+		return nil
+	}
+	if isExt && c.W.externHavoc[ek] {
+		c.W.noteAssumed("extern " + key + " may write any memory (whole heap havocked, result unconstrained): " + c.W.externFrames[ek])
+		return f.unknownCall(st, common, key)
+	}
 	if why := c.W.externFrames[ek]; isExt && c.W.externPure[ek] && len(args) > 0 {
 		c.W.noteAssumed("extern " + key + " is a pure accessor (its result is a function of the receiver and arguments): " + why)
 		if r := c.pureExtern(key, args[0], args[1:], resultType(common)); r != nil {
@@ -324,7 +359,17 @@ func (f *Frame) callStatic(st *State, site ssa.CallInstruction, common *ssa.Call
 		f.panicSite(st, site.(ssa.Instruction), "panic", TTrue, "call to "+key)
 		return f.zeroResults(common)
 	}
-	if ct := c.W.contractFor(callee); ct != nil && len(ct.Extra["inline"]) == 0 {
+	opaque := false
+	if f.contract != nil {
+		// "opaque <callee substring>": this caller meets the callee through its contract even where the
+		// callee is marked inline (the caller's obligations are about the arguments it passes)
+		for _, sub := range f.contract.Extra["opaque"] {
+			if strings.Contains(callee.Name(), strings.Fields(sub)[0]) {
+				opaque = true
+			}
+		}
+	}
+	if ct := c.W.contractFor(callee); ct != nil && (len(ct.Extra["inline"]) == 0 || opaque) {
 		// a function under contract is always called through its contract
 		// (including recursive calls); only the top frame's own body is executed.
 		return f.callContract(st, site, common, ct, args)
@@ -778,5 +823,112 @@ func (f *Frame) zeroRange(st *State, dBase, dOff, n Term, et types.Type) {
 				c.idxSort, na.S, inWin.S, z.S, e.S, dBase.S, na.S), SBool)})
 		c.copyRecs[na.S] = copyRec{e: e, dBase: dBase, dOff: dOff, n: n, zero: true, zeroVal: z}
 		c.memSet(st, en, Store(e, dBase, na))
+	}
+}
+
+// recordLastArgs keeps, as ghost state, the arguments of the latest call of an extern interface method
+// (specifications read them with lastarg("Method", k)): the only thing a caller can know about such a
+// component is what it was last told.
+func (f *Frame) recordLastArgs(st *State, method string, args []*Val) {
+	c := f.c
+	for i, a := range args {
+		var comps []Term
+		switch a.K {
+		case KScalar:
+			comps = []Term{a.T}
+		case KSlice:
+			comps = []Term{a.Base, a.Off, a.Len, a.Cap}
+		case KIface:
+			comps = []Term{a.Tag, a.Pay}
+		default:
+			continue
+		}
+		for j, t := range comps {
+			st.mem[c.lastArgGhost(method, i, j, t.Sort)] = t
+		}
+		if c.lastArgShape == nil {
+			c.lastArgShape = map[string]*Val{}
+		}
+		c.lastArgShape[fmt.Sprintf("%s.%d", method, i)] = a
+	}
+}
+
+func (c *Ctx) lastArgGhost(method string, i, j int, sort string) string {
+	name := fmt.Sprintf("G_last.%s.%d.%d", method, i, j)
+	if _, ok := c.memInit[name]; !ok {
+		n := sanitize(name + "_0")
+		c.decls = append(c.decls, fmt.Sprintf("(declare-const %s %s)", n, sort))
+		c.memInit[name] = raw(n, sort)
+		c.memSort[name] = sort
+	}
+	return name
+}
+
+// lastArg rebuilds the recorded argument k of the latest call of method on the path of st.
+func (c *Ctx) lastArg(st *State, method string, k int) *Val {
+	shape := c.lastArgShape[fmt.Sprintf("%s.%d", method, k)]
+	if shape == nil {
+		return nil
+	}
+	get := func(j int, sort string) Term { return c.memPeek(st, c.lastArgGhost(method, k, j, sort)) }
+	switch shape.K {
+	case KScalar:
+		return scalar(get(0, shape.T.Sort), shape.Ty)
+	case KSlice:
+		return &Val{K: KSlice, Ty: shape.Ty, Base: get(0, shape.Base.Sort), Off: get(1, shape.Off.Sort), Len: get(2, shape.Len.Sort), Cap: get(3, shape.Cap.Sort)}
+	case KIface:
+		return &Val{K: KIface, Ty: shape.Ty, Tag: get(0, shape.Tag.Sort), Pay: get(1, shape.Pay.Sort)}
+	}
+	return nil
+}
+
+// havocPointee: the variable a pointer argument of a writes-args extern points to gets an unconstrained value
+// (pointers inside a short argument slice of interface values, as in fmt.Sscanf(s, format, &x, &y), included).
+func (f *Frame) havocPointee(st *State, a *Val) {
+	c := f.c
+	switch a.K {
+	case KScalar:
+		if p, ok := a.Ty.Underlying().(*types.Pointer); ok && a.T.Sort == SRef {
+			c.store(st, a.T, p.Elem(), c.freshVal("argw", p.Elem()))
+		}
+	case KIface:
+		tagID := -1
+		if a.Tag.C != nil {
+			tagID = int(a.Tag.C.Int64())
+		} else {
+			// the dynamic type the path condition pins down (the value was stored into the argument array just before)
+			for _, id := range c.W.tagIDs() {
+				if _, isPtr := c.W.tagType(id).Underlying().(*types.Pointer); !isPtr {
+					continue
+				}
+				if c.feasible(And(st.reach, Eq(a.Tag, IntLitI(int64(id))))) && !c.feasible(And(st.reach, Neq(a.Tag, IntLitI(int64(id))))) {
+					tagID = id
+					break
+				}
+			}
+		}
+		if tagID < 0 {
+			panic(unsupported("writes-args extern: pointer argument of unknown dynamic type"))
+		}
+		if tagID == 0 {
+			return
+		}
+		dt := c.W.tagType(tagID)
+		if p, ok := dt.Underlying().(*types.Pointer); ok {
+			c.store(st, a.Pay, p.Elem(), c.freshVal("argw", p.Elem()))
+		}
+	case KSlice:
+		if a.Len.C == nil || a.Len.C.Int64() > 8 {
+			if _, isStr := a.Ty.Underlying().(*types.Slice); isStr {
+				if a.Len.C == nil {
+					return // e.g. a []byte input: read only
+				}
+			}
+			panic(unsupported("writes-args extern: argument slice of unknown length"))
+		}
+		et := a.Ty.Underlying().(*types.Slice).Elem()
+		for i := int64(0); i < a.Len.C.Int64(); i++ {
+			f.havocPointee(st, c.load(st, RefElem(a.Base, c.idxAdd(a.Off, c.idxLit(i))), et))
+		}
 	}
 }
